@@ -447,7 +447,15 @@ func (f *fn) assigned(list []ast.Stmt, e *env) []string {
 			out = append(out, n)
 		}
 	}
-	sort.Slice(out, func(i, j int) bool { return e.vars[out[i]].seq < e.vars[out[j]].seq })
+	// canonical order: by (Lean) type, then by declaration — swapping the declarations of two variables of different
+	// types does not change the carried tuple
+	sort.Slice(out, func(i, j int) bool {
+		a, b := e.vars[out[i]], e.vars[out[j]]
+		if ta, tb := a.t.lean(), b.t.lean(); ta != tb {
+			return ta < tb
+		}
+		return a.seq < b.seq
+	})
 	return out
 }
 
